@@ -33,7 +33,8 @@ def perturb(S, ci, before_open, rnd):
                 d, o, c, hi, lo, v, tt, lu, ld = b
                 if v > 0:
                     c2 = min(lu, max(ld, round(o * (1 + rnd.uniform(-0.06, 0.06)), 2)))
-                    new[i] = (d, o, c2, max(o, c2, min(lu, round(max(o, c2) * 1.01, 2))), min(o, c2, max(ld, round(min(o, c2) * 0.99, 2))), v, tt, lu, ld)
+                    # the day's turnover (hence its volume-weighted average price) belongs to the future as well
+                    new[i] = (d, o, c2, max(o, c2, min(lu, round(max(o, c2) * 1.01, 2))), min(o, c2, max(ld, round(min(o, c2) * 0.99, 2))), v, v * round((o + 2 * c2) / 3, 2), lu, ld)
                 else:
                     new[i] = b
             else:
@@ -182,8 +183,22 @@ def run_world(S, cfgk, seed, ids):
             queries(context, "before_trading")
 
         def open_auction(context, bar_dict):
+            import rqalpha.api as api
+            from rqalpha.model.order import LimitOrder
             queries(context, "open_auction", bar_dict)
             feedback(context, "open_auction")
+            # an auction limit order that does not cross the open, then a second order in the same call: the broker looks at its book again, the leftover must
+            # go on waiting for the bar whatever that bar will be
+            for oid in stocks[:2]:
+                try:
+                    o_ = bar_dict[oid].open
+                    if o_ == o_ and o_ > 0:
+                        lo_ = api.order_shares(oid, 100, price_or_style=LimitOrder(round(o_ * 0.985, 2)))
+                        mo_ = api.order_shares(oid, 100)
+                        tr.events.append(("QUERY", {"cal": Environment.get_instance().calendar_dt, "phase": "open_auction", "query": "auction_leftover", "id": oid,
+                                                    "result": [None if x is None else [x.status.name, canon_q(x.filled_quantity), canon_q(x.avg_price)] for x in (lo_, mo_)]}))
+                except Exception as ex:
+                    tr.events.append(("QUERY", {"cal": Environment.get_instance().calendar_dt, "phase": "open_auction", "query": "auction_leftover", "id": oid, "result": "raised:" + type(ex).__name__}))
             au0(context, bar_dict)
 
         def handle_bar(context, bar_dict):
@@ -320,7 +335,8 @@ def run(ctx):
             ci = S["cal"].index(days[di])
             T = perturb(S, ci, before_open, random.Random(seed * 31 + di))
             Bw = run_world(T, cfgk, seed, ids)
-            limit = datetime.datetime.combine(days[di], datetime.time(0, 0)) if before_open else datetime.datetime.combine(days[di], datetime.time(23, 59))
+            # "before the open" = everything published before that day's bar, whatever clock the events carry
+            limit = datetime.datetime.combine(days[di], datetime.time(14, 59)) if before_open else datetime.datetime.combine(days[di], datetime.time(23, 59))
             pa, pb = prefix(A, limit), prefix(Bw, limit)
             ca, cb = canon_events(pa), canon_events(pb)
             ctx.evaluations += max(len(ca), len(cb))
